@@ -46,7 +46,7 @@ Checks(name, beh) ==
 Probe(name, x) == /\ ~probe.done
                   /\ probe' = [done |-> TRUE, name |-> name, x |-> x, out |-> Outcome(chk, name, x)]
                   /\ UNCHANGED <<base, chk, regs, early>>
-Next == \/ \E n \in {"tag", "email", ""}, b \in {"truthy", "falsy", "listed", "unlisted"} : Checks(n, b)
+Next == \/ \E n \in {"tag", "email", ""}, b \in {"truthy", "falsy", "listed", "unlisted", "intonly"} : Checks(n, b)
         \/ \E n \in Names, x \in Insts : Probe(n, x)
 Spec == Init /\ [][Next]_vars
 
